@@ -180,6 +180,7 @@
 import JdProofs.RealDiff
 import JdProofs.RealDiffSet
 import JdProofs.RealDiffMerge
+import JdProofs.RealDiffKeys
 
 set_option autoImplicit false
 
@@ -925,5 +926,40 @@ example (L : FloatLaws) (d1 d2 : Diff) (h : Hunk)
       hd r hr,
     fun r hr => no_redundant_hunk_list_patch L [] rfl rfl rfl _ _ a1 a2 a3 a4 b1 b2 b3 b4 H Z d1
       d2 h hd true r hr⟩
+
+/-! ## SetKeys reading (strict strategy) — proofs in JdProofs/RealDiffKeys.lean (ns `Jd.RealK`)
+
+   `RealK.Loc o a b q u v` navigates `a` and `b` jointly along a path (a keyed element enters THE member
+   of `a` that is the last bearer of its identity, and its partner of equal identity in `b`). Every hunk
+   is real with no hash hypothesis; equal sub-documents are not mentioned under `PathInj` (needed:
+   `RealK.Witness.equal_member_mentioned_nullkey`, the KF-C01-keytwin shape); no PROPER SUB-LIST of the diff
+   reaches `b` (stronger than leave-one-out; it is what carries the induction through the swallowed
+   nested failures of `sw = true`). -/
+
+/-- every hunk of a SetKeys diff is real (literal members / values at a location present in `a`, what it
+    removes is not Equal to what it adds, set hunks list one-sided identities only) -/
+theorem diffM_hunk_real_setkeys {o : Opts} (hd : dispatchTag o = .set) (hp : precOf o = 0)
+    (hmg : isMerge o = false) {a b : Json} (hr : a.rawDoc = true) (hw : a.wf = true)
+    (hrb : b.rawDoc = true) (hwb : b.wf = true) : ∀ h ∈ diffM o a b, Jd.RealK.HunkReal o a b [] h :=
+  Jd.RealK.diffM_hunk_real hd hp hmg hr hw hrb hwb
+
+/-- **no redundant hunk, SetKeys**: leaving any single hunk out, what the library's `Patch` returns (if it
+    applies at all) is not equivalent to `b` -/
+theorem no_redundant_hunk_setkeys (F : FloatEq0) (L : FloatLaws) (sw : Bool) (o : Opts) (ks : List String)
+    (hd : dispatchTag o = .set) (hk : keysOf o = some ks) (hmg : isMerge o = false)
+    (hp : precOf o = 0) (a b : Json) (ha : a.setDoc = true) (hb : b.setDoc = true)
+    (ha' : DPL.memOK a = true) (hb' : DPL.memOK b = true) (K : Jd.DPK.KeysHyp o ks a b)
+    (i : Nat) (hi : i < (diffM o a b).length) (r : Json)
+    (hres : patchAll sw a ((diffM o a b).eraseIdx i) = .ok r) : equivB o r b = false :=
+  Jd.RealK.no_redundant_hunk_eraseIdx F L sw o ks hd hk hmg hp a b ha hb ha' hb' K i hi r hres
+
+/-- the stronger form: no proper sub-list of the diff turns `a` into `b` -/
+theorem no_proper_sublist_setkeys (F : FloatEq0) (L : FloatLaws) (sw : Bool) (o : Opts) (ks : List String)
+    (hd : dispatchTag o = .set) (hk : keysOf o = some ks) (hmg : isMerge o = false)
+    (hp : precOf o = 0) (a b : Json) (ha : a.setDoc = true) (hb : b.setDoc = true)
+    (ha' : DPL.memOK a = true) (hb' : DPL.memOK b = true) (K : Jd.DPK.KeysHyp o ks a b)
+    (D' : Diff) (hS : D'.Sublist (diffM o a b)) (hne : D' ≠ diffM o a b) (r : Json)
+    (hr : patchAll sw a D' = .ok r) : equivB o r b = false :=
+  Jd.RealK.no_proper_sublist F L sw o ks hd hk hmg hp a b ha hb ha' hb' K D' hS hne r hr
 
 end Jd.Props.C07
